@@ -76,6 +76,9 @@ def run(cx):
             REM = rf'Instant::saturating_duration_since\({DEADLINE},Instant::now\(\)\)'
             cx.check('C18.P1', bool(re.search(rf'^Time::delay_for\(Ord::min\(Duration::from_millis\(20\),{REM}\)\)$', s.term)), f.path, s.key(), 'sleep=min(backoff,remaining)', s.term[:200], s.loc)
             cx.guard('C18.P1', [s], {'budget-left': rf'^!Duration::is_zero\({REM}\)$', 'backoff-below-cap': r'^lt:Duration\(Duration::from_millis\(20\),Duration::from_millis\(300\)\)$'}, fn=f)
+        # the budget is ONE deadline for the whole lookup: computed once, never re-armed (a server that truncates over TCP too, or
+        # any other re-queue cycle, is ended by nothing else)
+        cx.single_def('C18.P1', f, 'deadline-computed-once-per-lookup', '^' + DEADLINE + '$')
         second = [s for s in to if s not in first]
         cx.guard('C18.P1', second, {'no-budget-left': rf'^Duration::is_zero\(Instant::saturating_duration_since\({DEADLINE},Instant::now\(\)\)\)$'}, fn=f)
     # ---------------------------------------------------------------- P2 de-duplication
